@@ -4,6 +4,8 @@ import glob, json, os, re
 V = os.path.dirname(os.path.dirname(os.path.abspath(__file__)))
 rows = []
 for d in sorted(glob.glob(os.path.join(V, "seeded", "*"))):
+    if not os.path.isdir(d):
+        continue
     m = json.load(open(os.path.join(d, "meta.json")))
     oc = m.get("our_checks", {})
     caught = next((t for t in ("quick", "thorough") if oc.get(t, {}).get("exit") == 1), None)
